@@ -116,8 +116,20 @@ func customFunc(n *Node) func(t *sp.Task) {
 		}
 		o := s.Shell.CustomStart(node.Name, inPaths, pkv)
 		s.SleepNS(o.DurNS)
+		if o.Fail == simrt.FailExitBefore || o.Fail == simrt.FailSignal {
+			s.Fault(o.Fail.String())
+			s.Shell.CustomEnd(o, 1)
+			sp.Fail("injected failure of the Go function of task " + o.Key + " before writing")
+		}
 		for oi, os := range node.Outs {
 			data := simrt.OpContent(node.Name, inData, pkv, oi, node.PadTo)
+			if o.Fail == simrt.FailOmit && oi == o.FailArg%len(node.Outs) {
+				s.Fault(o.Fail.String())
+				continue // the function "forgets" one declared output
+			}
+			if o.Fail == simrt.FailExitPartial && oi == o.FailArg%len(node.Outs) {
+				data = data[:len(data)/2]
+			}
 			oip := t.OutIP(os.Name)
 			if node.Custom == 2 {
 				oip.Write(data) // the documented idiom
@@ -127,6 +139,16 @@ func customFunc(n *Node) func(t *sp.Task) {
 					sp.Fail("custom task could not write " + path + ": " + err.Error())
 				}
 			}
+			if o.Fail == simrt.FailExitPartial && oi == o.FailArg%len(node.Outs) {
+				s.Fault(o.Fail.String())
+				s.Shell.CustomEnd(o, 1)
+				sp.Fail("injected failure of the Go function of task " + o.Key + " after a partial write")
+			}
+		}
+		if o.Fail == simrt.FailExitAfter {
+			s.Fault(o.Fail.String())
+			s.Shell.CustomEnd(o, 1)
+			sp.Fail("injected failure of the Go function of task " + o.Key + " after writing all outputs")
 		}
 		s.Shell.CustomEnd(o, 0)
 	}
